@@ -199,14 +199,18 @@ Proof.
   injection H as -> _. exact (free_never_potential _ Hc E).
 Qed.
 
-(* Saving and reloading a checkpoint, and any history of switch / save+load operations, preserves all
-   of these values: a reloaded reaction IS the saved one (pickle being an oracle), a history leaves
-   the reaction or its switched image, and a checkpointed step that ran >= 1 s hands every later
-   run exactly the state it saved. *)
+(* Saving and reloading a checkpoint, and any history of switch / save+load / set-TS / append-TS
+   operations, preserves all of these values: a reloaded reaction IS the saved one (pickle being an
+   oracle); after any history the reaction is the original one or its switched image, carrying the
+   list of transition states that the ts-setter / append operations of the history produce (switch and
+   save/load never touch it); reaction-type deltas only follow the parity of switches; a checkpointed
+   step that ran >= 1 s hands every later run exactly the state it saved. *)
 Theorem checkpoint_history_preserves :
   (forall r r' s, load (save r) r' = r /\ delta (load (save r) r') s = delta r s /\
                   rtype (load (save r) r') = rtype r) /\
-  (forall ops r, run_ops ops r = (if odd_switches ops then switch r else r)) /\
+  (forall ops r, run_ops ops r = set_tss (if odd_switches ops then switch r else r) (tss_after ops (tss r))) /\
+  (forall ops r, (forall o, In o ops -> o = OSwitch \/ o = OSaveLoad) ->
+     run_ops ops r = (if odd_switches ops then switch r else r) /\ tss (run_ops ops r) = tss r) /\
   (forall ops r s k, delta_kind s = Some (k, false) ->
      delta (run_ops ops r) s = (if odd_switches ops then dneg (delta r s) else delta r s)) /\
   (forall f g r r2 e1 e2, ~ e1 < 1 ->
@@ -215,9 +219,11 @@ Theorem checkpoint_history_preserves :
   (forall f r e1, e1 < 1 -> ckpt_step None e1 f r = (f r, None)).
 Proof.
   split; [intros r r' s; rewrite load_save; repeat split; reflexivity|].
-  split; [exact run_ops_parity|]. split.
-  - intros ops r s k H. rewrite run_ops_parity. destruct (odd_switches ops); [|reflexivity].
-    apply delta_kind_parse in H. apply (delta_switch r s k H).
+  split; [exact run_ops_spec|]. split.
+  { intros ops r H. rewrite (run_ops_parity ops H). split; [reflexivity|]. destruct (odd_switches ops); reflexivity. }
+  split.
+  - intros ops r s k H. rewrite run_ops_spec. apply delta_kind_parse in H. rewrite (delta_nonts_set_tss _ _ _ _ H).
+    destruct (odd_switches ops); [|reflexivity]. apply (delta_switch r s k H).
   - split.
     + intros f g r r2 e1 e2 N. exists (save (f r)). split.
       * apply ckpt_first_run. rewrite checkpoint_threshold_is_one_second.
@@ -225,6 +231,31 @@ Proof.
       * rewrite ckpt_rerun. cbn [fst]. apply load_save.
     + intros f r e1 L. apply ckpt_short_run. rewrite checkpoint_threshold_is_one_second.
       apply Lemmas.Qcltb_lt. exact L.
+Qed.
+
+(* The ts setter: `reaction.ts = None` removes every transition state held (the reaction is
+   barrierless again and every barrier is the diffusion-limit estimate of barrierless_estimate_spec),
+   `reaction.ts = t` makes t the only one (every barrier is t minus the reactants); both persist
+   through any later switch / save / load. *)
+Theorem ts_setter_spec : forall r,
+  (tss (run_op (OSetTS None) r) = [] /\ is_barrierless (run_op (OSetTS None) r) = true /\
+   forall s k, delta_kind s = Some (k, true) ->
+     delta (run_op (OSetTS None) r) s = estimate r (diff k (prods r) (reacs r))) /\
+  (forall t, tss (run_op (OSetTS (Some t)) r) = [t] /\ is_barrierless (run_op (OSetTS (Some t)) r) = false /\
+   forall s k, delta_kind s = Some (k, true) -> delta (run_op (OSetTS (Some t)) r) s = diff k [t] (reacs r)) /\
+  (forall x ops, (forall o, In o ops -> o = OSwitch \/ o = OSaveLoad) ->
+     tss (run_ops ops (run_op (OSetTS x) r)) = match x with None => [] | Some t => [t] end).
+Proof.
+  intros r. split; [|split].
+  - split; [reflexivity|]. split; [unfold is_barrierless; cbn [run_op set_tss tss]; rewrite lowest_ts_nil; reflexivity|].
+    intros s k H. apply delta_kind_parse in H.
+    rewrite (delta_barrierless (run_op (OSetTS None) r) s k H eq_refl). reflexivity.
+  - intros t. split; [reflexivity|].
+    split; [unfold is_barrierless; cbn [run_op set_tss tss]; rewrite lowest_ts_single; reflexivity|].
+    intros s k H. apply delta_kind_parse in H.
+    rewrite (delta_ts_some (run_op (OSetTS (Some t)) r) s k t H (lowest_ts_single t)). reflexivity.
+  - intros x ops H. rewrite (run_ops_parity ops H).
+    destruct (odd_switches ops); destruct x; reflexivity.
 Qed.
 
 (* ---------------------------------------------------------------------------------------------
